@@ -61,6 +61,32 @@ def order_mentions():
     return sorted(names), slots
 
 
+def physics_facts():
+    """facts about the `physics-failure` action and the Stepper's event-id validation"""
+    data = strip_comments(read("src/celeritas/phys/PhysicsData.hh"))
+    m = must(r"ActionId\s+failure_action\(\)\s*const\s*\{\s*return\s+ActionId\s*\{\s*"
+             r"model_to_action\s*\+\s*num_models\s*(?:([+-])\s*(\d+)\s*)?\}\s*;", data,
+             "PhysicsParamsScalars::failure_action()")
+    add = int(m.group(2)) if m.group(1) == "+" else 0
+    sub = int(m.group(2)) if m.group(1) == "-" else 0
+    par = strip_comments(read("src/celeritas/phys/PhysicsParams.cc"))
+    ctor = must(r"Create actions.*?Construct data|using std::make_shared;(.*?)HostValue host_data;",
+                par, "PhysicsParams constructor action registration", re.S).group(0)
+    order = []
+    for mm in re.finditer(r'make_shared<ImplicitPhysicsAction>\(\s*action_reg\.next_id\(\)\s*,\s*'
+                          r'"([^"]+)"|make_shared<detail::(PreStepAction|DiscreteSelectAction)>'
+                          r'|this->(build_models)\(inp\.action_registry\)', ctor):
+        order.append(mm.group(1) or {"PreStepAction": "pre-step",
+                                     "DiscreteSelectAction": "physics-discrete-select",
+                                     "build_models": "<models>"}[mm.group(2) or mm.group(3)])
+    if "<models>" not in order or "physics-failure" not in order:
+        raise TranslateError("PhysicsParams: registration of models / physics-failure not found")
+    step = strip_comments(read("src/celeritas/global/Stepper.cc"))
+    m = must(r"CELER_VALIDATE\(\s*max_id->event_id\s*(<=|<|>=|>|!=|==)\s*"
+             r"params_->init\(\)->max_events\(\)", step, "Stepper event-id validation")
+    return add, sub, order, m.group(1)
+
+
 def gen_trackinit():
     src = strip_comments(read("src/celeritas/Types.hh"))
     status = parse_enum(src, "TrackStatus")
@@ -87,7 +113,28 @@ def trackSlotsMentions : Nat := {nslots}
 
 end CelerVerif.Generated.TrackInit
 """
-    return write_if_changed("TrackInitEnums.lean", text)
+    c1 = write_if_changed("TrackInitEnums.lean", text)
+    add, sub, reg, op = physics_facts()
+    text2 = HEADER + f"""
+namespace CelerVerif.Generated.PhysicsActions
+
+/-- `PhysicsParamsScalars::failure_action()` returns
+    `ActionId{{model_to_action + num_models + failureExprAdd - failureExprSub}}` -/
+def failureExprAdd : Nat := {add}
+def failureExprSub : Nat := {sub}
+
+/-- actions registered by the PhysicsParams constructor, in registration (= id) order;
+    `<models>` stands for the `num_models` model actions emitted by `build_models` -/
+def registrationOrder : List String := [{", ".join('"%s"' % x for x in reg)}]
+
+/-- comparison in `Stepper::operator()(primaries)`:
+    `CELER_VALIDATE(max_id->event_id <op> params_->init()->max_events(), ...)` -/
+def eventCheckOp : String := "{op}"
+
+end CelerVerif.Generated.PhysicsActions
+"""
+    c2 = write_if_changed("PhysicsActions.lean", text2)
+    return c1 or c2
 
 
 GENERATORS = {"trackinit": gen_trackinit}
